@@ -429,18 +429,26 @@ def _parse_single_ix_experiment_3_0(struct: ir.Struct) -> SqwIXExperiment:
     def g(n: str) -> Any:
         return _get_scalar_struct_field(struct, n)
 
+    emode = EnergyMode(g("emode"))
+
     candidate_efix = _get_struct_field(struct, "efix").data
     if isinstance(candidate_efix, np.ndarray):
         efix = sc.array(dims=["detector"], values=candidate_efix, unit="meV")
     else:
         (e,) = candidate_efix
-        efix = sc.scalar(e.value, unit="meV")
+        if emode == EnergyMode.indirect:  # one value per detector
+            efix = sc.array(dims=["detector"], values=[e.value], unit="meV")
+        else:
+            efix = sc.scalar(e.value, unit="meV")
 
     raw_en = _get_struct_field(struct, "en").data
-    if isinstance(raw_en, np.ndarray):
-        en = raw_en.squeeze()
+    if not isinstance(raw_en, np.ndarray):
+        raw_en = np.array([[e.value for e in raw_en]])
+    if emode == EnergyMode.indirect and raw_en.ndim == 2:
+        # One row of energy transfers per detector.
+        en = sc.array(dims=["detector", "energy_transfer"], values=raw_en, unit="meV")
     else:
-        en = [e.value for e in raw_en]
+        en = sc.array(dims=["energy_transfer"], values=raw_en.reshape(-1), unit="meV")
 
     angle_unit = sc.Unit("deg" if g("angular_is_degree") else "rad")
 
@@ -449,8 +457,8 @@ def _parse_single_ix_experiment_3_0(struct: ir.Struct) -> SqwIXExperiment:
         filepath=g("filepath"),
         run_id=int(g("run_id")) - 1,
         efix=efix,
-        emode=EnergyMode(g("emode")),
-        en=sc.array(dims=["energy_transfer"], values=en, unit="meV"),
+        emode=emode,
+        en=en,
         psi=sc.scalar(g("psi"), unit=angle_unit),
         u=sc.vector(_get_struct_field(struct, "u").data),
         v=sc.vector(_get_struct_field(struct, "v").data),
